@@ -1,11 +1,12 @@
 SPEC = {
     "id": "C07",
-    "level": "exploration",
-    "sidecars": [], "functions": [],
+    "level": "other",
+    "sidecars": ['stems', 'get_hostname'],
+    "functions": ['ural/lru/stems.py:canonicalized_lru_stems', 'ural/lru/stems.py:normalized_lru_stems', 'ural/lru/stems.py:fingerprinted_lru_stems', 'ural/get_hostname.py:get_hostname'],
     "bounded": ["bcheck.c07"],
-    "technique": "bounded differential checking of two real code paths of ural that must agree (helper vs URL-level function)",
     "explanation": (
-        "BOUNDED only (differential between two code paths of the repository): get_normalized_hostname / normalize_hostname vs the host of "
+        "Deductive extras (all inputs, pyvc): canonicalized / normalized / fingerprinted_lru_stems return exactly lru_stems_from_parsed_url of the unsplit=False record of the corresponding URL function, called with the caller's suffix_aware flag and keyword arguments; get_hostname is total (ValueError of urlsplit caught) and returns the parser's hostname or None, never an empty string. "
+        "Deciding step BOUNDED (differential between two code paths of the repository): get_normalized_hostname / normalize_hostname vs the host of "
         "normalize_url, get_fingerprinted_hostname / fingerprint_hostname vs the host of fingerprint_url, canonicalized / normalized / fingerprinted "
         "lru stems vs lru_stems of the corresponding URL (scheme stem removed when the scheme was stripped), get_hostname vs urlsplit after "
         "ensure_protocol; over URL strings with / without scheme, whitespace, control characters, userinfo, ports, redirect-carrying and unparseable "
